@@ -218,7 +218,11 @@ ArgSrc(rk) == IF rk = "env" THEN "env" ELSE IF rk = "fString" THEN "fenv" ELSE "
 
 (* substitutions tried for the pattern t in s: deletion, a longer multi-byte *)
 (* text, and on the shorter strings a one-symbol text and t itself          *)
-Replacements(s, t) == IF Len(s) <= 3 THEN {<<>>, <<98>>, <<233, 128512>>, t} ELSE {<<>>, <<233, 128512>>}
+(* and texts a regular-expression engine would expand instead of inserting: $1 $0 $$ ${a} $a (replace() substitutes    *)
+(* literally; only replaceMatches() knows references)                                                                      *)
+RefLike == {<<36, 49>>, <<36, 48>>, <<36, 36>>, <<36, 123, 97, 125>>, <<36, 97>>}
+Replacements(s, t) == IF Len(s) <= 3 THEN {<<>>, <<98>>, <<233, 128512>>, t} \cup (IF Len(s) = 2 /\ Find(s, t) >= 0 THEN RefLike ELSE {})
+                      ELSE {<<>>, <<233, 128512>>}
 
 ValueCases(s, rk) ==
   LET src == ArgSrc(rk) IN
